@@ -1,13 +1,38 @@
 """MANIFEST texts per claimed property (level_claimed.text, level_note, technique)."""
-TECH = "contract-based deductive verification: sidecar contracts on the real functions, VCs generated from their AST on every run, discharged by z3"
+TECH = "contract-based deductive verification: sidecar contracts on the real functions, VCs generated from their AST on every run, discharged by z3 (E-matching over an axiomatised byte-sequence theory)"
+TRUST = "Trusted: pyvc's encoding of Python semantics (DESIGN.md 2.2/2.14), z3, the sequence/library axioms of DESIGN.md 2.3; "
 TEXTS = {
+    "C01": dict(
+        level_text="Proof that ABNF.format / _get_masked / mask / _mask / create_frame and WebSocket.send_frame / send / ping / pong / send_close return and write exactly rfc_encode(frame) - the RFC 6455 5.2 encoding with the shortest length form, MASK set, one key drawn from the configured source - for payloads of every length and content, all opcodes/FIN values the API accepts, bytes / bytearray / text, custom bytes and ASCII-str key sources, trace on and off, and every short-write pattern (loop invariant); lemma L-RT: an independent decoder recovers the fields and payload.",
+        level_note=TRUST + "assumed contracts of the transport's send() and of the key source (os.urandom / user callable returns 4 bytes or 4 ASCII chars); A-INTXOR (xor of int.from_bytes values is byte-wise). close() is covered by C08.",
+        technique=TECH, design_ref="DESIGN.md 5 C01"),
+    "C02": dict(
+        level_text="Proof, over a ghost byte stream rx with ghost frame start fstart, that frame_buffer.recv_strict / recv_frame (with recv_header, recv_length, recv_mask inlined) return exactly rfc_decode(rx, fstart) - FIN, RSV, opcode, mask flag, unmasked payload, all three length forms - and consume exactly the frame's bytes (fstart' = next frame, nothing buffered beyond it), for all streams; WebSocket.recv_data_frame / recv hand out those frames / messages in order (loop invariant).",
+        level_note=TRUST + "assumed transport contract (any non-empty prefix of what remains, or an error, per read); rfc_decode as written from RFC 6455 5.2; A-PACK for struct.unpack.",
+        technique=TECH, design_ref="DESIGN.md 5 C02"),
+    "C03": dict(
+        level_text="Proof that every post-condition of the receive path is a function of (rx, fstart, object state) only while the chunk returned by each transport read is unconstrained (so it holds for every segmentation down to single bytes), that recv_line consumes exactly up to the first LF (handshake boundary), and that every exceptional exit (timeout at any read) preserves the parser and reassembly invariants with fstart unchanged, so a retry resumes without loss, duplication or reordering.",
+        level_note=TRUST + "assumed transport contract; timeouts are those raised by the transport (socket.timeout / SSL 'timed out') and mapped by _socket.recv; the select-returns-nothing branch of _socket.recv is verified as written (it reports connection-closed).",
+        technique=TECH, design_ref="DESIGN.md 5 C03"),
+    "C04": dict(
+        level_text="Proof by loop invariant over the frames consumed in one call of recv_data_frame: the reassembly object agrees with a spec fold over the accepted data frames (first fragment's opcode, in-order concatenation), control frames in between change nothing but the wire, and the value returned is the completed message (or, with fire_cont_frame, each fragment with its own payload and FIN); by induction over calls, consecutive messages come out in order.",
+        level_note=TRUST + "continuous_frame.validate/add/is_fire/extract are verified inlined into recv_data_frame against its contract rather than under contracts of their own.",
+        technique=TECH, design_ref="DESIGN.md 5 C04"),
     "C05": dict(
-        level_text="Proof, for all frames (symbolic opcode, flags, payload of any length, all 65536 close codes), that ABNF.validate returns normally only on frames RFC 6455 admits and raises WebSocketProtocolException only on frames it need not accept; every other exception class is proved impossible.",
-        level_note="Trusted: pyvc's encoding of Python semantics, z3, the reading of RFC 6455 7.4 (must_accept / must_reject code sets; 1012-1014 left open), wf_utf8 defined by the Table 3-7 automaton (C06).",
+        level_text="Proof, for all frames (symbolic opcode, flags, payload of any length, all 65536 close codes), that ABNF.validate returns normally only on frames RFC 6455 admits and raises WebSocketProtocolException only on frames it need not accept; recv_frame / recv_data_frame deliver only admissible frames in a legal data/continuation sequence; every other exception class is proved impossible.",
+        level_note=TRUST + "the reading of RFC 6455 7.4 (must_accept / must_reject code sets; 1012-1014 left open), wf_utf8 defined by the Table 3-7 automaton (C06). The converse direction (every legal sequence is accepted) is proved for single frames in ABNF.validate and recv_frame; for sequences it follows from the fold guard and is additionally exercised by the native differential used for replays.",
         technique=TECH, design_ref="DESIGN.md 5 C05"),
     "C06": dict(
-        level_text="Proof by loop invariant (simulation between the code's table-driven DFA, read from the live module, and an automaton generated from Unicode Table 3-7) that validate_utf8(b) is True exactly for well-formed UTF-8, for byte strings of every length.",
-        level_note="Trusted: pyvc, z3, the transcription of Unicode Table 3-7, the induction scheme behind the trap-absorption axiom (its step lemma is discharged).",
+        level_text="Proof by loop invariant (simulation between the code's table-driven DFA, read from the live module, and an automaton generated from Unicode Table 3-7) that validate_utf8(b) is True exactly for well-formed UTF-8, for byte strings of every length; recv_data_frame validates the reassembled message (so a code point split across fragments is accepted), recv() never lets a decode error escape, and with validation off bytes pass through.",
+        level_note=TRUST + "the transcription of Unicode Table 3-7, the induction scheme behind the trap-absorption axiom (its step lemma is discharged), A-UTF8 (CPython's strict decoder agrees with Table 3-7).",
         technique=TECH, design_ref="DESIGN.md 5 C06"),
+    "C07": dict(
+        level_text="Proof by the loop invariant of recv_data_frame that at every loop head (i.e. before the next transport read) the wire has grown by exactly one pong - rfc_encode(FIN, PONG, fresh key, same payload) - per ping consumed so far, in arrival order, and by nothing else; a close frame adds exactly one close reply; for every ping payload 0..125 bytes, any number and position of pings, with and without control-frame reporting.",
+        level_note=TRUST + "assumed transport and key-source contracts; the pong path uses the contracts of WebSocket.pong/send/send_frame/ABNF.format proved under C01.",
+        technique=TECH, design_ref="DESIGN.md 5 C07"),
+    "C12": dict(
+        level_text="Sequential part, proof: for every pattern of short writes the bytes accepted during one send_frame call are exactly one rfc_encode(frame) (loop invariant); _socket.send makes one accepted transport write per call. Concurrent part: lock-invariant obligations - the send lock is released only when no partial frame is on the wire, WebSocket._send requires the send lock, recv() performs the message read only under the read lock, recv_frame holds the frame lock until the stage flags are cleared; default construction uses real locks.",
+        level_note=TRUST + "threading.Lock is a mutex (assumed); thread interleavings are NOT explored - the claim is lock discipline plus sequential correctness, as DESIGN.md 5 C12 states.",
+        technique=TECH + "; lock-invariant obligations for the concurrent clauses", design_ref="DESIGN.md 5 C12"),
 }
 NOT_APPLICABLE = {}
